@@ -54,7 +54,7 @@ Definition codegen_x86_case (i r : sexp) : verdict :=
           | L [A "PANIC"; Q msg] =>
               match m with
               | Err _ => VOk "panic-agree"
-              | Ok _ => VDiff (show (s_res_codes m)) (show r)
+              | Ok _ => diff_window_b (show (s_res_codes m)) (show r)
               end
           | L [cs; n] =>
               match g_xcodes cs, getN n with
@@ -69,7 +69,7 @@ Definition codegen_x86_case (i r : sexp) : verdict :=
                           | VOk _ => VOk (x86_tags mc ++ " runs" ++ n_to_string (N.of_nat (defined_runs p argss)))
                           | v => v
                           end
-                      | Err _ => VDiff (show (s_res_codes m)) (show r')
+                      | Err _ => diff_window_b (show (s_res_codes m)) (show r')
                       end
                   end
               | _, _ => VBad "rust output unreadable"
